@@ -603,7 +603,8 @@ class SInt:
     def __mul__(self, o):
         if not _num(o):
             if hasattr(o, "__len__"):
-                return o * self.__index__()
+                k = cost_guard(self, "repetition by")
+                return o * (k if _real_isinstance(k, _real_int) else k.__index__())
             return NotImplemented
         a, b = norm(self), norm(o)
         if _real_isinstance(a, _real_int):
@@ -764,6 +765,14 @@ class SInt:
             return a**o
         raise Unsupported("pow on a symbolic int")
 
+    def __rpow__(self, o):
+        k = cost_guard(self, "power with")
+        if _real_isinstance(k, _real_int):
+            return o**k
+        if _real_isinstance(o, _real_int) and o == 2:
+            return _shift(1, k, True)
+        raise Unsupported("pow with a symbolic exponent")
+
     def __truediv__(self, o):
         raise Unsupported("true division on a symbolic int")
 
@@ -842,6 +851,22 @@ def _common_bits(a, b):
     return max(1, min(his).bit_length())
 
 
+def cost_guard(k, what):
+    """cost obligation: an operation whose result has as many bits / items as the symbolic value k
+    (x << k, 2 ** k, bytes(k), seq * k).  Decide (solver) whether the path lets k exceed the limit;
+    if so the path ends as a cost blow-up (largest class first, so that the witness is one the real
+    package can be seen to choke on).  Returns k, refined to <= COST_LIMIT_BITS."""
+    k = norm(k)
+    if _real_isinstance(k, _real_int) or not _real_isinstance(k, SInt):
+        return k
+    if k.hi is None or k.hi > core.COST_LIMIT_BITS:
+        for thr in (1 << 40, 1 << 34, core.COST_LIMIT_BITS):
+            if _real_bool(k > thr):
+                raise core.PathCost(f"{what} a symbolic amount that can exceed 2**{thr.bit_length() - 1}")
+        k = norm(k)
+    return k
+
+
 def _shift(val, amt, left):
     if not _num(val) or not _num(amt):
         return NotImplemented
@@ -861,15 +886,8 @@ def _shift(val, amt, left):
             return _shift(v, k, left)
     if _real_isinstance(v, _real_int) and v == 0:
         return 0
-    if left and (k.hi is None or k.hi > core.COST_LIMIT_BITS):
-        # cost obligation: a left shift by a symbolic amount builds an integer of that many bits.
-        # Decide (solver) whether the path lets the amount exceed the limit; if so the path ends
-        # as a cost blow-up (largest class first, so that the witness is one the real package can
-        # be seen to choke on)
-        for thr in (1 << 40, 1 << 34, core.COST_LIMIT_BITS):
-            if _real_bool(k > thr):
-                raise core.PathCost(f"left shift by a symbolic amount that can exceed 2**{thr.bit_length() - 1} bits")
-        k = norm(k)
+    if left:
+        k = cost_guard(k, "left shift by")
         if _real_isinstance(k, _real_int):
             return _shift(v, k, left)
     if k.hi is None:
